@@ -111,6 +111,12 @@ func (list sortableFieldInfos) Len() int {
 }
 
 func (list sortableFieldInfos) Less(i, j int) bool {
+	if list[i].JSONName == list[j].JSONName {
+		// As in encoding/json, a field promoted from an embedded struct is hidden by a
+		// shallower field of the same name, wherever it is declared: the shallower
+		// one goes last, the last one being the one kept.
+		return len(list[i].Index) > len(list[j].Index)
+	}
 	return list[i].JSONName < list[j].JSONName
 }
 
